@@ -568,15 +568,18 @@ def callValueY (_T : TcFacts) (rets : List STy) : Res Opnd :=
     unary / binary operator node, the post-order shortcut of cfg.go ("store the result directly at the
     destination") has replaced the node's type by the destination type, so the assignment check sees
     identical types. (Arithmetic nodes already carry the destination type by propagation, in both statements.) -/
-def assignY (T : TcFacts) (decl : Bool) (sh : Shape) (dst : Ty) (x : Opnd) : Res Unit :=
+def assignY (T : TcFacts) (decl : Bool) (sh : Shape) (dst : Ty) (x : Opnd) : Res Ty :=
   match sh with
-  | .plain | .arith .land | .arith .lor => assignmentY T.ops x dst
+  | .plain | .arith .land | .arith .lor => do assignmentY T.ops x dst; .ok dst
   | .arith op =>
-    if !decl then .ok ()
+    if !decl then .ok dst
     -- nodeType2: an arithmetic node that is the direct source of `var v I = …` gets (a copy of) the interface type
-    else if dst.isIface && op != .rem then .ok ()
-    else assignmentY T.ops x dst
-  | _ => if decl then assignmentY T.ops x dst else .ok ()
+    else if dst.isIface && op != .rem then .ok dst
+    else do assignmentY T.ops x dst; .ok dst
+  | .recv =>
+    -- "assign by reading from a receiving channel": `dest.typ = src.typ`, the variable takes the element type
+    if decl then do assignmentY T.ops x dst; .ok x.ty else .ok dst
+  | _ => if decl then do assignmentY T.ops x dst; .ok dst else .ok dst
 
 def defineY (T : TcFacts) (x : Opnd) : Res Ty :=
   match x.ty with
@@ -624,7 +627,7 @@ def retValsY (T : TcFacts) : List STy → List (Shape × Opnd) → Res Unit
   | [], _ :: _ => .err
   | r :: rs, (sh, x) :: rest =>
     match sh with
-    | .plain | .cmp | .shift | .arith .land | .arith .lor | .arith .rem => do
+    | .plain | .cmp | .shift | .recv | .arith .land | .arith .lor | .arith .rem => do
       if ← assignableToY T.ops x.ty (.s r) x.rv then retValsY T rs rest else .err
     | _ => retValsY T rs rest                  -- unary / arithmetic node: its type was replaced by the result type (shortcut)
 
